@@ -58,7 +58,7 @@ ASSUMPTIONS = [
 # --------------------------------------------------------------------------
 TIERS = {
     "quick": {
-        "soft_s": 58,
+        "soft_s": 50,
         "ops_random": 1500,
         "pairs": 400,
         "programs": 21,
@@ -1040,7 +1040,9 @@ class Emitter:
                 def fails(c):
                     return ro.in_domain(c) and any(ro.sig_of(g) == sig for g in ro.run_case(c))
 
-                if fails(case):
+                if not ro.in_domain(case):
+                    ctx.stat("finding_case_outside_shrink_domain")  # e.g. an empty operand range
+                elif fails(case):
                     small = ro.shrink(case, fails)
                     fs = [g for g in ro.run_case(small) if ro.sig_of(g) == sig]
                     if fs:
@@ -1091,7 +1093,8 @@ def phase_ops(ctx, em, deadline):
     ctx.stat("obs1_exhaustive_box_complete", 1)
     want = int(ctx.params.get("ops_random", 1000))
     k = 0
-    while k < want and time.time() < deadline:
+    floor = min(want, int(ctx.params.get("min_ops_random", 300)))  # done regardless of the clock
+    while k < want and (k < floor or time.time() < deadline):
         case = rand_op_case(rng)
         fs = ro.run_case(case)
         k += 1
@@ -1154,7 +1157,8 @@ def phase_pairs(ctx, em, deadline):
     want = int(ctx.params.get("pairs", 200))
     k = 0
     n = 0
-    while k < want and time.time() < deadline:
+    floor = min(want, int(ctx.params.get("min_pairs", 60)))
+    while k < want and (k < floor or time.time() < deadline):
         nv = rng.randint(1, 3)
         names = ["x", "y", "z"][:nv]
         expr = gen_expr(rng, names, rng.randint(1, 4))
@@ -1301,7 +1305,6 @@ def _process_program(ctx, em, spec, rng, deadline, sample=False, fold_sizes=None
 
     # ---- (2b) environments from real loop bounds
     ro.MON.origin = {"action": "direct:IndexRangeEnvironment", "src": src}
-    before = dict(ro.MON.counts)
     try:
         m = _walk_env(ctx, em, spec, p, rng)
         ctx.stat("obs2_proc_queries", m)
@@ -1415,15 +1418,23 @@ def phase_programs(ctx, em, deadline):
     if ctx.shard == 0:
         # fixed regression corpus (deterministic; keeps known mechanisms observed on every run)
         for spec in corpus():
-            _process_program(ctx, em, spec, rng, deadline + 60, fold_sizes=[1, 2, 3, 4, 5, 6, 8])
+            _process_program(ctx, em, spec, rng, float("inf"), fold_sizes=[1, 2, 3, 4, 5, 6, 8])
             ctx.stat("corpus_programs")
     want = int(ctx.params.get("programs", 20))
     k = 0
     built = 0
-    while k < want and time.time() < deadline:
+    floor = min(want, int(ctx.params.get("min_programs", 6)))
+    tries = 0
+    while k < want and (built < floor or time.time() < deadline) and tries < 4 * want + 20:
+        tries += 1
         k += 1
-        spec = gen_f2(rng) if rng.random() < 0.45 else gen_f1(rng)
-        if _process_program(ctx, em, spec, rng, deadline, sample=(built == 0)):
+        forced = built < floor
+        if forced:
+            spec = gen_f2(rng) if built % 2 else gen_f1(rng)  # both families, whatever the clock says
+        else:
+            spec = gen_f2(rng) if rng.random() < 0.45 else gen_f1(rng)
+        dl = float("inf") if forced else deadline
+        if _process_program(ctx, em, spec, rng, dl, sample=(built == 0)):
             built += 1
     if k < want:
         ctx.stat("programs_stopped_by_soft_cap")
@@ -1464,7 +1475,7 @@ MINIMA = {
         "obs4:compile:IndexRangeEnvironment.check_expr_bound",
         300,
     ),
-    "obs4 compile: add_loop_iter": ("obs4:compile:IndexRangeEnvironment.add_loop_iter", 100),
+    "obs4 compile: add_loop_iter": ("obs4:compile:IndexRangeEnvironment.add_loop_iter", 60),
     "obs4 simplify: check_expr_bound(s) decisions": ("__simplify_decisions__", 40),
     "obs4 fold: index_range_analysis": ("obs4:fold:index_range_analysis", 100),
     "obs4 fold: IndexRange.__or__": ("obs4:fold:IndexRange.__or__", 40),
